@@ -38,6 +38,10 @@ class GraphConfigImpl:
 
         generic_class = getattr(node, '__generic_class__', None)
 
+        # A node may be derived from a node that was itself derived with build_node: only the basic node has a source
+        while getattr(generic_class, '__generic_class__', None) is not None:
+            generic_class = generic_class.__generic_class__
+
         if generic_class is None:
             file_path = '/'.join(node.__module__.split('.'))
 
